@@ -292,7 +292,7 @@ def main(argv=None):
             # determinism self-check: the first planned item is executed twice in this process and must
             # give identical observations (counts, outcome hashes, violation signatures) - a divergence
             # means the harness does not own all nondeterminism and no verdict can be trusted
-            if items and not os.environ.get("QMC_NO_SELFCHECK"):
+            if items and not os.environ.get("QMC_NO_SELFCHECK") and getattr(mod, "SELFCHECK", True):
                 probe = min(items[:8], key=lambda it: len(json.dumps(it)))
                 a, b = _work(probe), _work(probe)
                 fp = lambda d: (d["evaluations"], d["nontrivial"], sorted(map(str, d["outcomes"])), d["n_violations"], [v["signature"] for v in d["violations"]], d.get("engine_error"))  # noqa: E731
